@@ -452,9 +452,12 @@ def run_case(case):
         if rng.random() < 0.12:
             # one actor first asks for a service the device refuses (CLSE instead of OKAY): that operation fails; the others must not notice
             a = rng.randrange(nact)
-            steps[a].insert(0, dict(sh("refused%d" % a, 1), refused=True, read_timeout_s=rng.choice([0.01, 0.2]), transport_timeout_s=0))
+            steps[a].insert(0, dict(sh("refused%d" % a, 1), refused=True, read_timeout_s=rng.choice([2e-5, 1e-4]), transport_timeout_s=0))
             stats["schedules_with_refused_open"] = stats.get("schedules_with_refused_open", 0) + 1
-            ckw = {"stall": "eof"}       # an idle transport returns no bytes (0.05 virtual seconds each): the library's own deadline ends the wait for the refused stream
+            # the refused operation polls (transport timeout 0) and an idle link answers a poll with no bytes, so the library's own (tiny) deadline ends
+            # its wait; everybody else's reads behave as in the other schedules (an operation stalled by the known finding K1 must not cost 10 virtual seconds
+            # while it holds the transport: bystanders would time out)
+            ckw = {"stall": "poll"}
         else:
             ckw = None
         dims = {"maxdata": rng.choice([4096, 8192, 65536]), "remote": rng.choice(gen.REMOTE_REGIMES), "id_start": rng.choice(gen.ID_STARTS), "frag": rng.choice(["whole", "minus1"]),
